@@ -45,6 +45,7 @@ func (l *Loaded) VerifyD(pkgShort string, keys []string, opts vc.VerifyOpts, run
 	for _, key := range keys {
 		e := vc.NewEngine(l.Fset, l.Contracts)
 		e.AddFuncs(p.Types, p.TypesInfo, p.Syntax)
+		e.ArgOwnership = true
 		if err := e.VerifyFunc(key, opts); err != nil {
 			// the contract no longer fits the code: the proof of the pinned tree cannot be rebuilt
 			all = append(all, ObResult{Name: key + "/contract-applies", ID: key + "/contract-applies#0", Kind: "contract-applies", Func: key,
